@@ -9,6 +9,7 @@ From Coq Require Import List ZArith Bool.
 Import ListNotations.
 Require Import Gram.Model.Term Gram.Model.DeBruijn Gram.Model.Eval Gram.Model.Token Gram.Gen.ValueForms Gram.Model.Printer Gram.Proofs.FormsProofs.
 Require Gram.Model.Grammar Gram.Proofs.SoundProofs Gram.Proofs.PrintProofs.
+Require Gram.Model.Parser Gram.Model.ParserPost Gram.Proofs.ReassocProofs Gram.Proofs.TreeDerivation Gram.Proofs.PrintRoundTrip.
 
 Theorem C16_group_bare_is_atoms : group_bare = [FType; FVar; FInt; FLit; FBool; FTrue; FFalse].
 Proof. exact group_bare_is_atoms. Qed.
@@ -59,3 +60,38 @@ Theorem C16_D12_is_not_a_sentence : ltac:(let T := type of PrintProofs.unused_im
 Proof. exact PrintProofs.unused_implicit_pi_not_sentence. Qed.
 Check C16_D12_is_not_a_sentence : _ /\ ~ SoundProofs.derives Grammar.Term (print (TPi true TInt TInt)).
 Print Assumptions C16_D12_is_not_a_sentence.
+
+(* THE ROUND TRIP, at the level of structure (Proofs/PrintRoundTrip.v): for every printable term t and EVERY token list whose
+   kinds are `print t` (whatever names, byte ranges, literal values) the parser model accepts, its raw tree is the image of
+   the printer's intended derivation - the only derivation of that text - and after re-association the tree has exactly the
+   skeleton of t: same operators with the same operands, same grouping, same implicitness, same definition structure,
+   same positions of literals; with the literal values of t on the tokens, the same literals. Names and de Bruijn indices
+   are outside the kind-level printer model (they are compared on the implementation). What the kind level already
+   identifies is recorded: a hole and a variable are both an identifier; a group whose body is a group prints as the merged
+   group; the empty group prints as its body. *)
+Theorem C16_print_reads_back_same_structure : forall t toks memo,
+  PrintProofs.printable t = true -> map Parser.pk toks = print t ->
+  exists raw m s, Parser.parse_stage1 toks memo = (Parser.S1Tree raw, m, s) /\
+    ReassocProofs.gstrip raw = TreeDerivation.gtree_of toks (PrintRoundTrip.dprint t) /\
+    PrintRoundTrip.unlit (PrintRoundTrip.gshape (ReassocProofs.strip (ParserPost.reassociate raw))) = PrintRoundTrip.unlit (PrintRoundTrip.shape t).
+Proof. exact PrintRoundTrip.print_reads_back_same_structure. Qed.
+Check C16_print_reads_back_same_structure : forall t toks memo,
+  PrintProofs.printable t = true -> map Parser.pk toks = print t ->
+  exists raw m s, Parser.parse_stage1 toks memo = (Parser.S1Tree raw, m, s) /\
+    ReassocProofs.gstrip raw = TreeDerivation.gtree_of toks (PrintRoundTrip.dprint t) /\
+    PrintRoundTrip.unlit (PrintRoundTrip.gshape (ReassocProofs.strip (ParserPost.reassociate raw))) = PrintRoundTrip.unlit (PrintRoundTrip.shape t).
+Print Assumptions C16_print_reads_back_same_structure.
+
+Theorem C16_print_reads_back_same_structure_and_literals : forall t toks memo,
+  PrintProofs.printable t = true -> map Parser.pk toks = print t ->
+  PrintRoundTrip.lit_values toks = PrintRoundTrip.lits (PrintRoundTrip.shape t) ->
+  exists raw m s, Parser.parse_stage1 toks memo = (Parser.S1Tree raw, m, s) /\
+    PrintRoundTrip.gshape (ReassocProofs.strip (ParserPost.reassociate raw)) = PrintRoundTrip.shape t.
+Proof. exact PrintRoundTrip.print_reads_back_same_structure_values. Qed.
+Check C16_print_reads_back_same_structure_and_literals : forall t toks memo,
+  PrintProofs.printable t = true -> map Parser.pk toks = print t ->
+  PrintRoundTrip.lit_values toks = PrintRoundTrip.lits (PrintRoundTrip.shape t) ->
+  exists raw m s, Parser.parse_stage1 toks memo = (Parser.S1Tree raw, m, s) /\
+    PrintRoundTrip.gshape (ReassocProofs.strip (ParserPost.reassociate raw)) = PrintRoundTrip.shape t.
+Print Assumptions C16_print_reads_back_same_structure_and_literals.
+
